@@ -77,7 +77,7 @@ package hedgepolicy
 // Builders: one hedge by default; Build keeps what was configured (an explicit WithMaxHedges(0) stays 0) in a copy of its own.
 //@ func BuilderWithDelayFunc
 //@   builder
-//@   ensures [C09.builder.default_one_hedge] result != nil && typeis(result, *config) && asref(result, *config).maxHedges == 1 && asref(result, *config).delayFunc == delayFunc && asref(result, *config).BaseAbortablePolicy != nil && asref(result, *config).onHedge == nil
+//@   ensures [C09.builder.default_one_hedge] result != nil && typeis(result, *config) && fresh(asref(result, *config)) && asref(result, *config).maxHedges == 1 && asref(result, *config).delayFunc == delayFunc && asref(result, *config).BaseAbortablePolicy != nil && asref(result, *config).onHedge == nil
 //@   modifies nothing
 //@ func (*config).WithMaxHedges
 //@   builder
@@ -147,3 +147,27 @@ package hedgepolicy
 //@   requires c != nil
 //@   ensures [C16.hedge.listener_registered] c.onHedge == listener && c.maxHedges == old(c.maxHedges) && result == asiface(c)
 //@   modifies c.onHedge
+
+// convenience constructors: a constant delay is the delay function that returns it; WithX is BuilderWithX(x).Build()
+//@ func BuilderWithDelay$1
+//@   ensures [C09.builder.constant_delay] result == delay
+//@   modifies nothing
+//@ func BuilderWithDelay
+//@   builder
+//@   let c := asref(result, *config)
+//@   ensures [C09.builder.with_delay] result != nil && typeis(result, *config) && fresh(c) && c.maxHedges == 1 && clofn(c.delayFunc) == fnid("BuilderWithDelay$1") && cellof(clobind(c.delayFunc, 0), time.Duration) == delay && c.BaseAbortablePolicy != nil && c.onHedge == nil
+//@   modifies nothing
+//@ func WithDelayFunc
+//@   builder
+//@   dyntype HedgePolicyBuilder *config only
+//@   let tc := asref(result, *hedgePolicy).config
+//@   ensures [C09.with_delay_func] result != nil && typeis(result, *hedgePolicy) && tc != nil && tc.maxHedges == 1 && tc.delayFunc == delayFunc && tc.onHedge == nil && tc.BaseAbortablePolicy != nil
+//@   havoc
+//@   modifies *
+//@ func WithDelay
+//@   builder
+//@   dyntype HedgePolicyBuilder *config only
+//@   let tc := asref(result, *hedgePolicy).config
+//@   ensures [C09.with_delay] result != nil && typeis(result, *hedgePolicy) && tc != nil && tc.maxHedges == 1 && clofn(tc.delayFunc) == fnid("BuilderWithDelay$1") && cellof(clobind(tc.delayFunc, 0), time.Duration) == delay && tc.onHedge == nil && tc.BaseAbortablePolicy != nil
+//@   havoc
+//@   modifies *
